@@ -205,6 +205,15 @@ def structural_ignore(repo):
 
 
 STRUCTURAL = [structural_ignore]
+
+
+def _standin(repo, seed, tier):
+    from pyvc.standin import run_standin
+    return run_standin('C19', tier, seed, repo)
+
+
+_standin.tiers = ('quick', 'thorough')
+BOUNDED = [_standin]
 NOT_DECIDED = ['FolderIO.walk in-place pruning loop and gitignored_paths parsing: contracts pending (bounded stand-in planned)',
                'a .gitignore entry naming a FILE does not hide it (entries are compared str vs Path): reading question F11(i)',
                'regex prefilter vs parso tokenisation; inference behind dotted searches',
